@@ -7,6 +7,8 @@ direction `View` (forward: out-chains / `to`; reverse: in-chains / `from`) and h
 (checked at run time by the driver on every case, `Graph.wfB`; see notes/search.md).
 -/
 import AgdbSearch.Lemmas.GraphWF
+import AgdbSearch.Lemmas.Bfs
+import AgdbSearch.Lemmas.Dfs
 namespace AgdbSearch
 
 /-- The unconditional traversal: `SearchImpl::search` with a handler answering `Continue(true)`. -/
@@ -191,29 +193,69 @@ theorem C14_graph_terminates {σ : Type} (g : Graph) (hwf : g.wfB = true) (alg :
     cases fwd <;> simp only [Graph.view, if_true, Bool.false_eq_true, if_false] <;> omega
   omega
 
-/-! ### Order. Statements kept in full; proved part below. -/
+/-! ### Order -/
 
-/-- Reference depth-first traversal: recursive pre-order with a global visited list, a node's chain taken
-most-recent-first (fuel = recursion depth budget). -/
-def dfsRef (V : View) : Nat → List Int → Int → List Int
-  | 0, vis, _ => vis
-  | f + 1, vis, x =>
-    if vis.contains x then vis
-    else if 0 < x then (V.succ x).foldl (fun acc e => dfsRef V f acc e) (x :: vis)
-    else dfsRef V f (x :: vis) (V.target x)
+/-- **Depth-first order**: the elements are returned in the order of the recursive pre-order traversal with a global
+visited set (`Dfs`, Lemmas/Dfs.lean: a visited element is skipped; a node is followed by the traversal of the
+edges of its chain, most recent first, each to its end before the next; an edge by the traversal of its target) —
+`xs.reverse` is the visited list (newest first) that traversal ends with. All graphs, node and edge origins,
+both directions. -/
+theorem C14_dfs_order (V : View) (hwf : V.WF) (o : Int) (ho : 0 < o ∨ 0 < V.target o) (fuel : Nat)
+    (xs : List Int) (h : traverse .dfs V o fuel = .ok xs) : Dfs V [] o xs.reverse := by
+  have hinv : InvI V (gsInit o) := by
+    refine ⟨?_, ?_⟩
+    · intro si hsi _ hd; simp [gsInit] at hsi; subst hsi; simp at hd
+    · intro si hsi hn; simp [gsInit] at hsi; subst hsi
+      rcases ho with h | h
+      · exact absurd h hn
+      · exact h
+  have := dfs_aux V hwf fuel (gsInit o) xs h hinv
+  simp only [gsInit, DfsItems, List.append_nil] at this
+  obtain ⟨v1, hrel, rfl⟩ := this
+  simpa [ItemRel] using hrel
 
-/-- FULL STATEMENT (not proved; validated exhaustively on all multigraphs ≤3 nodes/≤4 edges by the harness):
-the lazy depth-first iterator visits in the order of the recursive reference. -/
-def C14_dfs_order_statement : Prop :=
-  ∀ (V : View) (_ : V.WF) (o : Int) (fuel : Nat) (xs : List Int),
-    traverse .dfs V o fuel = .ok xs → ∃ f, (dfsRef V f [] o).reverse = xs
+/-- …and that reference traversal is a function: it is the only visited list the recursive traversal can end with. -/
+theorem C14_dfs_order_unique (V : View) (hwf : V.WF) (o : Int) (ho : 0 < o ∨ 0 < V.target o) (fuel : Nat)
+    (xs : List Int) (h : traverse .dfs V o fuel = .ok xs) (vis' : List Int) (hd : Dfs V [] o vis') :
+    vis' = xs.reverse :=
+  Dfs.functional hd (C14_dfs_order V hwf o ho fuel xs h)
 
-/-- FULL STATEMENT (not proved): the distance handed to the handler for each element by the breadth-first
-iterator is its shortest distance and the output is sorted by it. -/
-def C14_bfs_distance_statement : Prop :=
-  ∀ (V : View) (_ : V.WF) (o : Int) (fuel : Nat) (ds : List (Int × Nat)),
-    (∃ xs, traverse .bfs V o fuel = .ok xs ∧ xs = ds.map Prod.fst) →
-    True -- see `C14_bfs_distance_partial` for the proved part
+theorem eq_of_nodup_map {α β : Type} (f : α → β) : ∀ (l : List α), (l.map f).Nodup →
+    ∀ a ∈ l, ∀ b ∈ l, f a = f b → a = b
+  | [], _, a, ha, _, _, _ => by simp at ha
+  | x :: xs, hnd, a, ha, b, hb, hab => by
+    simp only [List.map_cons, List.nodup_cons, List.mem_map, not_exists, not_and] at hnd
+    rcases List.mem_cons.mp ha with ha' | ha' <;> rcases List.mem_cons.mp hb with hb' | hb'
+    · rw [ha', hb']
+    · subst ha'; exact absurd hab.symm (hnd.1 b hb')
+    · subst hb'; exact absurd hab (hnd.1 a ha')
+    · exact eq_of_nodup_map f xs hnd.2 a ha' b hb' hab
+
+/-- **Breadth-first distances**: the `(element, distance)` pairs handed to the handler (`visitsD`) list the returned
+elements in non-decreasing distance, and the distance attached to each element is its true shortest distance
+from the origin, every node and edge step counting 1 — for all graphs, node and edge origins, both directions. -/
+theorem C14_bfs_distance (V : View) (hwf : V.WF) (o : Int) (ho : 0 < o ∨ 0 < V.target o) (fuel : Nat)
+    (xs : List Int) (h : traverse .bfs V o fuel = .ok xs) :
+    ∃ tr : List SI, visitsD .bfs V fuel (gsInit o) = some tr ∧ xs = tr.map (fun t => t.idx) ∧
+      tr.Pairwise (fun a b => a.dist ≤ b.dist) ∧
+      ∀ t ∈ tr, ReachD V o t.idx t.dist ∧ ∀ k, ReachD V o t.idx k → t.dist ≤ k := by
+  obtain ⟨tr, htr, hxs⟩ := run_visitsD .bfs V fuel (gsInit o) xs h
+  obtain ⟨hsorted, hclosed, hreach⟩ := bfs_aux V hwf o fuel (gsInit o) [] tr htr (invD_init V o ho)
+  simp only [List.nil_append] at hsorted hclosed
+  have hnd : (tr.map (fun t => t.idx)).Nodup := hxs ▸ C14_nodup .bfs V o allH () fuel xs h
+  have ho0 : (⟨o, 0⟩ : SI) ∈ tr := by
+    cases fuel with
+    | zero => simp [visitsD] at htr
+    | succ f =>
+      simp only [visitsD, gsInit, gstep_unvisited .bfs V ⟨o, 0⟩ [] [] (by simp)] at htr
+      cases hq : visitsD .bfs V f ⟨expand false .bfs V ⟨o, 0⟩ true [], [o]⟩ with
+      | none => simp [hq] at htr
+      | some t' => simp [hq] at htr; subst htr; simp
+  refine ⟨tr, htr, hxs, hsorted, fun t ht => ⟨hreach t ht, fun k hk => ?_⟩⟩
+  obtain ⟨dx, hdx, hm⟩ := closedD_lower hclosed ho0 hk
+  have : (⟨t.idx, dx⟩ : SI) = t := eq_of_nodup_map (fun t => t.idx) tr hnd _ hm t ht rfl
+  have : dx = t.dist := by rw [← this]
+  omega
 
 /-! ### The unchanged code -/
 
@@ -255,5 +297,7 @@ theorem C14_edge_origin_unreachable : ¬ Reach g5.viewFwd (-5) (-4) := by
 example : traverse .bfs g5.viewFwd 1 g5.fuel = .ok [1, -5, -4, 3, 2] := by decide
 example : traverse .dfs g5.viewFwd 1 g5.fuel = .ok [1, -5, 3, -4, 2] := by decide
 example : traverse .bfs g5.viewRev 3 g5.fuel = .ok [3, -5, 1] := by decide
+example : g5.wfB = true := by decide
+example : visitsD .bfs g5.viewFwd g5.fuel (gsInit 1) = some [⟨1, 0⟩, ⟨-5, 1⟩, ⟨-4, 1⟩, ⟨3, 2⟩, ⟨2, 2⟩] := by decide
 
 end AgdbSearch
